@@ -901,5 +901,134 @@ theorem balancesOf_projEv (a : Nat) (evs : List Ev) :
     | balance b s =>
       simp only [List.map_cons, projEv, TearSheet.balancesOf_cons_balance, snapsOf_cons_balance, ih]
 
+/-! ### the checked runs -/
+
+theorem EngState.step_lengths (f : Rat → Rat) (s : EngState) (ev : Ev) :
+    (s.step f ev).instruments.length = s.instruments.length ∧
+    (s.step f ev).assets.length = s.assets.length := by
+  cases ev <;> simp [EngState.step, TearSheet.modifyAt_length]
+
+theorem EngState.runChecked_eq (f : Rat → Rat) (evs : List Ev) : ∀ s : EngState,
+    s.runChecked f evs =
+      if evs.any (Ev.panics s.instruments.length s.assets.length) then none
+      else some (s.run f evs) := by
+  induction evs with
+  | nil => intro s; rfl
+  | cons ev evs ih =>
+    intro s
+    obtain ⟨l1, l2⟩ := EngState.step_lengths f s ev
+    by_cases hp : ev.panics s.instruments.length s.assets.length = true
+    · simp [EngState.runChecked, EngState.stepChecked, EngState.panicsOn, hp]
+    · simp only [EngState.runChecked, EngState.stepChecked, EngState.panicsOn, hp, if_false,
+        Bool.false_eq_true, List.any_cons, Bool.false_or, ih, l1, l2]
+      rfl
+
+theorem SummaryGen.runChecked_eq (f : Rat → Rat) (evs : List Ev) : ∀ g : SummaryGen,
+    g.runChecked f evs =
+      if evs.any (Ev.panics g.instruments.length g.assets.length) then none
+      else some (g.run f evs) := by
+  induction evs with
+  | nil => intro g; rfl
+  | cons ev evs ih =>
+    intro g
+    obtain ⟨l1, l2, _⟩ := SummaryGen.step_fixed f g ev
+    by_cases hp : ev.panics g.instruments.length g.assets.length = true
+    · simp [SummaryGen.runChecked, SummaryGen.stepChecked, SummaryGen.panicsOn, hp]
+    · simp only [SummaryGen.runChecked, SummaryGen.stepChecked, SummaryGen.panicsOn, hp, if_false,
+        Bool.false_eq_true, List.any_cons, Bool.false_or, ih, l1, l2]
+      rfl
+
+theorem SummaryGen.execChecked_eq (f : Rat → Rat) (ops : List Op) : ∀ g : SummaryGen,
+    SummaryGen.execChecked f g ops =
+      if (eventsOf ops).any (Ev.panics g.instruments.length g.assets.length) then none
+      else some (SummaryGen.exec f g ops) := by
+  induction ops with
+  | nil => intro g; rfl
+  | cons op ops ih =>
+    intro g
+    cases op with
+    | ev e =>
+      obtain ⟨l1, l2, _⟩ := SummaryGen.step_fixed f g e
+      by_cases hp : e.panics g.instruments.length g.assets.length = true
+      · simp [SummaryGen.execChecked, SummaryGen.stepChecked, SummaryGen.panicsOn, hp, eventsOf]
+      · simp only [SummaryGen.execChecked, SummaryGen.stepChecked, SummaryGen.panicsOn, hp, if_false,
+          Bool.false_eq_true, ih, l1, l2, eventsOf, List.filterMap_cons, List.any_cons, Bool.false_or]
+        rfl
+    | gen iv =>
+      obtain ⟨_, _, _, k4, k5, _⟩ := SummaryGen.generate_fixed f g iv
+      simp only [SummaryGen.execChecked, ih, k4, k5, eventsOf, List.filterMap_cons]
+      split <;> rename_i h <;> simp [h, SummaryGen.exec]
+
+theorem EngState.execChecked_eq (f : Rat → Rat) (rf : Rat) (start now : Int) (ops : List Op) :
+    ∀ s : EngState,
+    EngState.execChecked f rf start now s ops =
+      if (eventsOf ops).any (Ev.panics s.instruments.length s.assets.length) then none
+      else some (EngState.exec f rf start now s ops) := by
+  induction ops with
+  | nil => intro s; rfl
+  | cons op ops ih =>
+    intro s
+    cases op with
+    | ev e =>
+      obtain ⟨l1, l2⟩ := EngState.step_lengths f s e
+      by_cases hp : e.panics s.instruments.length s.assets.length = true
+      · simp [EngState.execChecked, EngState.stepChecked, EngState.panicsOn, hp, eventsOf]
+      · simp only [EngState.execChecked, EngState.stepChecked, EngState.panicsOn, hp, if_false,
+          Bool.false_eq_true, ih, l1, l2, eventsOf, List.filterMap_cons, List.any_cons, Bool.false_or]
+        rfl
+    | gen iv =>
+      have e : eventsOf (Op.gen iv :: ops) = eventsOf ops := rfl
+      rw [e]
+      by_cases h : (eventsOf ops).any (Ev.panics s.instruments.length s.assets.length) = true
+      · simp only [EngState.execChecked, ih, if_pos h]; rfl
+      · simp only [EngState.execChecked, ih, if_neg h]; rfl
+
+theorem Ev.panics_iff (n m : Nat) (ev : Ev) :
+    ev.panics n m = true ↔
+      match ev with
+      | .position i p => n ≤ i ∨ p.closed.priceEntryAverage * p.closed.quantityAbsMax = 0
+      | .balance a _ => m ≤ a := by
+  cases ev with
+  | position i p => simp [Ev.panics, Metrics.Exit.panics_iff]
+  | balance a s => simp [Ev.panics]
+
+theorem mem_exitsOf (i : Nat) (p : Exit) (evs : List Ev) (h : Ev.position i p ∈ evs) :
+    p ∈ exitsOf i evs := by
+  unfold exitsOf
+  exact List.mem_filterMap.mpr ⟨_, h, by simp⟩
+
+theorem mem_snapsOf (a : Nat) (s : BalSnap) (evs : List Ev) (h : Ev.balance a s ∈ evs) :
+    s ∈ snapsOf a evs := by
+  unfold snapsOf
+  exact List.mem_filterMap.mpr ⟨_, h, by simp⟩
+
+theorem exitsOf_mem (i : Nat) (p : Exit) (evs : List Ev) (h : p ∈ exitsOf i evs) :
+    Ev.position i p ∈ evs := by
+  unfold exitsOf at h
+  obtain ⟨ev, hev, e⟩ := List.mem_filterMap.mp h
+  cases ev with
+  | position j q =>
+    by_cases hj : j = i
+    · simp [hj] at e; subst e; subst hj; exact hev
+    · simp [hj] at e
+  | balance a s => simp at e
+
+/-- A running maximum that is not positive reports nothing: C18's decomposition (and the generators it
+mirrors) continues from the next higher point as if the curve started there. -/
+theorem decompose_skip_nonpos_peak (p : Drawdown.Pt) (rest : List Drawdown.Pt) (hp : p.v ≤ 0) :
+    Drawdown.decompose (p :: rest) =
+      Drawdown.decompose (rest.dropWhile (fun q => decide (q.v ≤ p.v))) := by
+  have hseg : ∀ q ∈ rest.takeWhile (fun q => decide (q.v ≤ p.v)), q.v ≤ p.v := by
+    intro q hq
+    simpa using (Metrics.mem_takeWhile_imp' _ _ q hq)
+  have hd : ∀ t, Drawdown.ddOf p (rest.takeWhile (fun q => decide (q.v ≤ p.v))) t = none := by
+    intro t
+    simp [Drawdown.ddOf, Metrics.depthOf_nonpos_peak p _ hp hseg]
+  rw [Drawdown.decompose_cons]
+  cases hh : (rest.dropWhile (fun q => decide (q.v ≤ p.v))).head? with
+  | none =>
+    have : rest.dropWhile (fun q => decide (q.v ≤ p.v)) = [] := List.head?_eq_none_iff.mp hh
+    simp [hd, this, Drawdown.decompose]
+  | some q => simp [hd]
 
 end BarterModel.KeyedSummary
